@@ -72,7 +72,8 @@ def one_dataset(args):
         tmin = 8.0
         pres, rec = HY.presentation(beh, dt, "UTC", P.epoch_of(2015, 9, 1))
         et = et_pattern(beh, pres, rec)
-        wf, outc = HY.run_workflow(beh, dt, "UTC", P.epoch_of(2015, 9, 1), 1.0, wd, "s%d" % idx,
+        delta = [1.0, 0.5, 1.0, 0.5, 0.5][idx % 5]      # a fractional grid step: levels are not whole millimetres
+        wf, outc = HY.run_workflow(beh, dt, "UTC", P.epoch_of(2015, 9, 1), delta, wd, "s%d" % idx,
                                    et_of=lambda i: et.get(i, 13) / float(ET_UNIT))
         ident = "beh%d dt%d poly%s curvature %g" % (idx, dt, poly, curvature)
         if not (outc.get("rise") and outc["rise"].ok and outc.get("recession") and outc["recession"].ok):
